@@ -14,7 +14,7 @@
 
    What is proved without restriction: purity; unknown names; scalar
    locals / SHARED globals / parameters; elements of static arrays of every
-   rank; subscripts out of range and wrong rank.  What is proved under a guard
+   rank; record fields along any path; subscripts out of range and wrong rank.  What is proved under a guard
    (_partial): operator expressions (the guard is the folder's: INTEGER
    operands, the 16 operators of FoldProofs.fold_sound_int).  What is refuted
    on the faithful model (_refuted): comparisons of non-integers (D01), crashes
@@ -148,6 +148,41 @@ Theorem C13_dbg_element_unset_default : forall di s g sg cs n bs0 k base es bs i
   dbg_print di s (ELv n (map ilit idxs) []) = DVal (pv_of (default_cell k)).
 Proof. exact element_unset_default. Qed.
 Print Assumptions C13_dbg_element_unset_default.
+
+(* ---- record fields: read_struct + get_field return the cell at
+        base + get_dotted_index, i.e. the operand of the program's readidx,
+        for every record environment and every path (any nesting) ---- *)
+
+Theorem C13_dbg_field_agrees : forall di m s g sg cs n rn base path off ft c0 c v,
+  in_frame s g sg cs -> not_const di cs n ->
+  main_type di n = TRecord rn ->
+  has_key (d_globals di) n = false ->
+  local_var_idx (d_env di) (r_params (find_routine di cs)) (r_locals (find_routine di cs)) n = Some base ->
+  0 <= base ->
+  nth_error (s_cells sg) (Z.to_nat base) = Some c0 ->
+  (forall g1 i1, c0 <> Some (CRef g1 i1)) ->
+  read_struct (heap s) (d_env di) rn g base = Ok v ->
+  path <> [] ->
+  dotted_index (d_env di) (TRecord rn) path = Some off ->
+  dotted_type (d_env di) (TRecord rn) path = Some ft ->
+  (forall m0, ft <> TRecord m0) ->
+  0 <= base + off ->
+  nth_error (s_cells sg) (Z.to_nat (base + off)) = Some (Some c) ->
+  (cell_ty c =? 7) = false ->
+  dbg_print di s (ELv n [] path) = DVal (pv_of c) /\
+  exec m (IReadidx true (cell_ty c) base off) s = R tt (set_stack s (c :: stack s)).
+Proof. exact field_agrees. Qed.
+Print Assumptions C13_dbg_field_agrees.
+
+Theorem C13_dbg_record_path_is_dotted_index : forall h g env n base v,
+  read_struct h env n g base = Ok v ->
+  forall path off ft, path <> [] ->
+  dotted_index env (TRecord n) path = Some off ->
+  dotted_type env (TRecord n) path = Some ft ->
+  (forall m, ft <> TRecord m) ->
+  exists c, get_cell h g (base + off) = Ok c /\ get_field v path = Ok (cell_or_default ft c).
+Proof. exact read_struct_path. Qed.
+Print Assumptions C13_dbg_record_path_is_dotted_index.
 
 (* ---- subscripts out of range / wrong number of subscripts ---- *)
 
